@@ -9,7 +9,7 @@ from sylib import *
 import engine_stream as es
 
 OWN = (".sy-dir-cache.json", ".sy-checksums.db", ".sy-state.json")
-DAMAGE = ["truncate", "garbage", "version", "wrong-schema", "empty", "valid-but-foreign", "valid-resume-state"]
+DAMAGE = ["truncate", "garbage", "version", "wrong-schema", "empty", "valid-but-foreign", "valid-resume-state", "db-old-schema", "db-pages-zeroed"]
 
 def valid_resume_state(dst_root, src_root, completed, delete=False):
     """a resume state file that passes ResumeState::load's integrity check and is compatible with the run's flags (what an
@@ -33,6 +33,21 @@ def damage(rng, dst_root, tag, delete=False, force=None):
         except UnicodeEncodeError: done = [r for r in done if r.isascii()]
         valid_resume_state(dst_root, src_root, sorted(done)[:40], delete=delete)
         return ".sy-state.json:valid-resume-state"
+    if kind in ("db-old-schema", "db-pages-zeroed"):
+        # damage that lets the database OPEN but makes its queries fail (seeded change C18d): an older column layout of the `checksums`
+        # table, or data pages zeroed behind an intact header — a failed lookup is a miss, never a reason to stop or to skip
+        import sqlite3
+        p = os.path.join(dst_root, ".sy-checksums.db")
+        size = os.path.getsize(p) if os.path.exists(p) else 0
+        if kind == "db-pages-zeroed" and size > 2 * 4096:
+            with open(p, "r+b") as h:
+                h.seek(2 * 4096); h.write(b"\0" * (size - 2 * 4096))
+            return ".sy-checksums.db:db-pages-zeroed"
+        for ext_ in ("", "-wal", "-shm", "-journal"):
+            try: os.unlink(p + ext_)
+            except OSError: pass
+        c = sqlite3.connect(p); c.execute("CREATE TABLE checksums (path TEXT PRIMARY KEY, checksum BLOB)"); c.execute("INSERT INTO checksums VALUES ('a', x'00')"); c.commit(); c.close()
+        return ".sy-checksums.db:db-old-schema"
     if kind == "truncate":
         if os.path.exists(p):
             d = open(p, "rb").read(); open(p, "wb").write(d[:max(1, len(d) // 2)])
@@ -128,7 +143,7 @@ def run(tier="quick", seed=1, work=None, replay=None, focus="C18", ncases=None):
             base = ["--checksum"] if "--checksum" in mech else []
             common = (["--delete", "--force-delete"] if rng.chance(1, 2) else []) + ["-j", str(rng.pick([1, 4]))]
             fa = [x for x in mech] + common; fb = base + common
-            hist = []; clock = 2000; prev_keys = []; cache_damaged = False; all_keys = set()
+            hist = []; clock = 2000; prev_keys = []; cache_damaged = False; db_damaged = False; all_keys = set()
             steps = rng.range(3, 6)
             for st in range(steps):
                 ops = []
@@ -142,6 +157,10 @@ def run(tier="quick", seed=1, work=None, replay=None, focus="C18", ncases=None):
                         # every third history ends with a VALID, compatible resume state that lists every current source file as
                         # completed, left just before the last sync (after that step's edits): the edits must still arrive
                         ops.append("sabotage:" + damage(rng, os.path.join(A, "dst"), st, delete=("--delete" in common), force="valid-resume-state"))
+                    elif "--checksum-db" in mech and (ci % 3 == 2) and st >= 2 and st % 2 == 0:
+                        # every third history with the checksum database damages it (after at least two syncs filled it) so that it still OPENS
+                        # but its queries fail — old column layout / data pages zeroed (seeded change C18d)
+                        ops.append("sabotage:" + damage(rng, os.path.join(A, "dst"), st, delete=("--delete" in common), force=("db-old-schema" if st == 2 and ci % 2 == 0 else "db-pages-zeroed")))
                     elif rng.chance(1, 3): ops.append("sabotage:" + damage(rng, os.path.join(A, "dst"), st, delete=("--delete" in common)))
                 hist.append(ops)
                 # a damaged cache file stays damaged (and is read as empty) until a successful run saves a new one
@@ -188,7 +207,10 @@ def run(tier="quick", seed=1, work=None, replay=None, focus="C18", ncases=None):
                         prev_keys = keys; cache_damaged = False
                     except (ValueError, OSError) as e:
                         dis.append(f"cannot read the saved cache: {e}")
-                rows = db_rows(os.path.join(A, "dst")) if "--checksum-db" in mech and ra_ == 0 else None
+                # a database whose pages were zeroed / whose table has another layout stays unreadable: its rows are not compared with the
+                # model's any more (the twin comparison of the destinations — the property — goes on)
+                if any(o.startswith("sabotage:.sy-checksums.db:db-") for o in ops): db_damaged = True
+                rows = db_rows(os.path.join(A, "dst")) if "--checksum-db" in mech and ra_ == 0 and not db_damaged else None
                 if rows is not None:
                     sroot = os.path.join(A, "src")
                     files = []
